@@ -246,6 +246,8 @@ class Fn:
                     es.append((t[7], ("unwind",)))
             elif k == "yield":
                 es.append((t[3], ("goto",)))
+            # edges into `unreachable` blocks (otherwise-arms of exhaustive matches) are infeasible
+            es = [(t2, l2) for (t2, l2) in es if self.blocks[t2]["t"][2] != "unreachable"]
             succ.append(es)
         self._succ = succ
         pred = [[] for _ in range(self.n)]
